@@ -109,7 +109,8 @@ func main() {
 		if ctx.Thorough {
 			have := map[string]bool{}
 			for _, r := range ruleList {
-				have[r] = true
+				id, _ := splitRule(r)
+				have[id] = true
 			}
 			for _, r := range thoroughExtra[*prop] {
 				if !have[r] {
@@ -117,14 +118,17 @@ func main() {
 				}
 			}
 		}
-		for _, id := range ruleList {
+		for _, tok := range ruleList {
+			id, excl := splitRule(tok)
 			f := ruleTable[id]
 			if f == nil {
 				rep.cur = "LOAD"
 				rep.add("checker", "rule "+id, 0, Undecided, false, "rule not implemented")
 				continue
 			}
+			from := len(rep.obs)
 			runRule(ctx, id, f)
+			dropClauses(rep, from, id, excl)
 		}
 		if prog.cg != nil {
 			cgNodes = len(prog.cg.Nodes)
@@ -191,7 +195,8 @@ func runMulti(repo, list, tier, knownPath string) int {
 			if ctx.Thorough {
 				have := map[string]bool{}
 				for _, r := range ruleList {
-					have[r] = true
+					rid, _ := splitRule(r)
+					have[rid] = true
 				}
 				for _, r := range thoroughExtra[id] {
 					if !have[r] {
@@ -199,9 +204,12 @@ func runMulti(repo, list, tier, knownPath string) int {
 					}
 				}
 			}
-			for _, rid := range ruleList {
+			for _, tok := range ruleList {
+				rid, excl := splitRule(tok)
 				if f := ruleTable[rid]; f != nil {
+					from := len(rep.obs)
 					runRule(ctx, rid, f)
+					dropClauses(rep, from, rid, excl)
 				} else {
 					rep.cur = "LOAD"
 					rep.add("checker", "rule "+rid, 0, Undecided, false, "rule not implemented")
@@ -215,4 +223,38 @@ func runMulti(repo, list, tier, knownPath string) int {
 		}
 	}
 	return worst
+}
+
+// splitRule parses a rule token of props.go: "DS" or "DS~DS-2,DS-6" (the rule without the clauses whose obligation
+// descriptor starts with one of the listed prefixes: clauses that are not a necessary condition of this property).
+func splitRule(tok string) (id string, excl []string) {
+	if i := strings.Index(tok, "~"); i >= 0 {
+		return tok[:i], strings.Split(tok[i+1:], ",")
+	}
+	return tok, nil
+}
+
+// dropClauses removes the obligations of rule id recorded since index from whose descriptor starts with an excluded prefix.
+func dropClauses(rep *Report, from int, id string, excl []string) {
+	if len(excl) == 0 {
+		return
+	}
+	kept := rep.obs[:from]
+	for _, o := range rep.obs[from:] {
+		drop := false
+		if o.Rule == id {
+			parts := strings.SplitN(o.Key, "|", 3)
+			if len(parts) == 3 {
+				for _, e := range excl {
+					if strings.HasPrefix(parts[2], e+" ") || parts[2] == e {
+						drop = true
+					}
+				}
+			}
+		}
+		if !drop {
+			kept = append(kept, o)
+		}
+	}
+	rep.obs = kept
 }
